@@ -74,6 +74,46 @@ class CustomAuth(sl.AuthenticationCredential):
 
 
 @dataclasses.dataclass(frozen=True)
+class OtherControl(sl.LDAPControl):
+    control_type: str = dataclasses.field(init=False, repr=False, default="1.2.3.4.98")
+    value: t.Optional[bytes] = dataclasses.field(init=False, repr=False, default=None)
+    tag: bytes = b""
+
+    def get_value(self, options):
+        return self.tag
+
+    @classmethod
+    def unpack(cls, control_type, critical, value, options):
+        return OtherControl(critical=critical, tag=value or b"")
+
+
+@dataclasses.dataclass(frozen=True)
+class OtherFilter(sl.LDAPFilter):
+    filter_id: int = dataclasses.field(init=False, repr=False, default=1025)
+    raw: bytes = b""
+
+    def pack(self, writer, options):
+        writer.write_octet_string(self.raw, tag=A.ASN1Tag(A.TagClass.CONTEXT_SPECIFIC, self.filter_id, False))
+
+    @classmethod
+    def unpack(cls, reader, options):
+        return OtherFilter(raw=reader.read_octet_string(A.ASN1Tag(A.TagClass.CONTEXT_SPECIFIC, cls.filter_id, False)))
+
+
+@dataclasses.dataclass(frozen=True)
+class OtherAuth(sl.AuthenticationCredential):
+    auth_id: int = dataclasses.field(init=False, repr=False, default=1025)
+    token: bytes = b""
+
+    def pack(self, writer, options):
+        writer.write_octet_string(self.token, tag=A.ASN1Tag(A.TagClass.CONTEXT_SPECIFIC, self.auth_id, False))
+
+    @classmethod
+    def unpack(cls, reader, options):
+        return OtherAuth(token=reader.read_octet_string(tag=A.ASN1Tag(A.TagClass.CONTEXT_SPECIFIC, cls.auth_id, False)))
+
+
+@dataclasses.dataclass(frozen=True)
 class ClashControl(sl.LDAPControl):  # same OID as a built-in: registration must be refused
     control_type: str = dataclasses.field(init=False, repr=False, default="1.2.840.113556.1.4.319")
 
@@ -88,7 +128,8 @@ class ClashAuth(sl.AuthenticationCredential):
     auth_id: int = dataclasses.field(init=False, repr=False, default=0)
 
 
-REG = {"control": ("register_control", CustomControl), "filter": ("register_filter", CustomFilter), "auth": ("register_auth_credential", CustomAuth),
+REG = {"control2": ("register_control", OtherControl), "filter2": ("register_filter", OtherFilter), "auth2": ("register_auth_credential", OtherAuth),
+       "control": ("register_control", CustomControl), "filter": ("register_filter", CustomFilter), "auth": ("register_auth_credential", CustomAuth),
        "clash-control": ("register_control", ClashControl), "clash-filter": ("register_filter", ClashFilter), "clash-auth": ("register_auth_credential", ClashAuth)}
 
 
@@ -132,6 +173,25 @@ def bytes_custom_auth(mid):
     return ber.ser(root)
 
 
+def bytes_other(kind, mid, role):
+    if kind == "control":
+        ctl = ("1.2.3.4.98", False, b"tag", None)
+        return rfc4511.encode(("ExtendedRequest", mid, ("1.2.3", None), (ctl,)) if role == "server" else ("SearchResultEntry", mid, ("cn=x", ()), (ctl,)))
+    if kind == "filter":
+        root = rfc4511.Enc().message(("SearchRequest", mid, ("dc=x", 2, 0, 0, 0, False, ("present", "cn"), ()), ()))
+        root.children[1].children[6] = ber.Node(ber.CTX, False, 1025, content=b"other-filter")
+        return ber.ser(root)
+    root = rfc4511.Enc().message(("BindRequest", mid, (3, "cn=a", ("simple", "x")), ()))
+    root.children[1].children[2] = ber.Node(ber.CTX, False, 1025, content=b"other-token")
+    return ber.ser(root)
+
+
+def bytes_known_control(mid, role, with_value):
+    oid = "1.2.840.113556.1.4.417" if mid % 2 else "1.2.840.113556.1.4.2065"
+    ctl = (oid, bool(mid % 3 == 0), b"unusual-value" if with_value else None, None)
+    return rfc4511.encode(("ExtendedRequest", mid, ("1.2.3", None), (ctl,)) if role == "server" else ("SearchResultEntry", mid, ("cn=x", ()), (ctl,)))
+
+
 # ------------------------------------------------------------------ sequences
 
 def g_sequence(r, subset):
@@ -140,7 +200,7 @@ def g_sequence(r, subset):
     shadow = Driver(role, "drain")
     retired: t.List[int] = []
     steps = []
-    regs = [k for b, k in ((1, "control"), (2, "filter"), (4, "auth")) if subset & b]
+    regs = [(k if r.random() < 0.6 else k + "2") for b, k in ((1, "control"), (2, "filter"), (4, "auth")) if subset & b]
     reg_at = {r.randrange(0, 8): k for k in regs}
     fresh = 20
     n = r.choice([4, 8, 14, 20])
@@ -154,10 +214,14 @@ def g_sequence(r, subset):
         elif x < 0.3:
             fresh += 1
             if role == "server":
-                steps.append(("receive", r.choice([bytes_custom_control(fresh, role), bytes_custom_filter(fresh), bytes_custom_auth(fresh)])))
+                steps.append(("receive", r.choice([bytes_custom_control(fresh, role), bytes_custom_filter(fresh), bytes_custom_auth(fresh), bytes_other("control", fresh, role),
+                                                   bytes_other("filter", fresh, role), bytes_other("auth", fresh, role), bytes_known_control(fresh, role, True),
+                                                   bytes_known_control(fresh, role, False)])))
             else:
                 ip = sorted(i_ for i_, k in shadow.model.ip.items() if k == "search")
-                steps.append(("receive", bytes_custom_control(ip[0] if ip else 1, role)))
+                mid_ = ip[0] if ip else 1
+                steps.append(("receive", r.choice([bytes_custom_control(mid_, role), bytes_other("control", mid_, role), bytes_known_control(mid_ + r.choice([0, 1, 2]) * 0 + (0 if ip else 0), role, True),
+                                                   bytes_known_control(mid_, role, False)])))
         elif x < 0.5:
             fresh += 1
             a = ("receive", H.crafted_for_server(r, shadow, fresh) if role == "server" else H.crafted_for_client(r, shadow, retired))
@@ -186,7 +250,7 @@ def new_session(role):
     return sl.LDAPClient() if role == "client" else sl.LDAPServer()
 
 
-def exec_step(role, sess, drv_call, a):
+def exec_step(role, sess, drv_call, a, held=None):
     """Execute one step on a bare session; return the transcript entry."""
     try:
         k = a[0]
@@ -205,9 +269,21 @@ def exec_step(role, sess, drv_call, a):
         else:
             ret = drv_call(a)
         out = ("ret", repr(ret))
+        if k == "receive" and isinstance(ret, list):
+            if held is not None:
+                held.extend(ret)
+            out = out + (repr([deep(m) for m in ret]),)
     except Exception as e:
         out = ("exc", type(e).__name__, str(e))
     return out + (sess.state.name, sess.data_to_send().hex())
+
+
+def deep(m):
+    """Full public content of a returned message incl. fields excluded from repr (e.g. control .value)."""
+    try:
+        return (av.abstract(m), [(type(c).__name__, c.control_type, c.critical, c.value) for c in m.controls])
+    except Exception as e:
+        return ("unabstractable", type(e).__name__)
 
 
 def make_runner(role):
@@ -219,7 +295,10 @@ def make_runner(role):
 def run_isolated(seq):
     role, steps = seq
     sess, call = make_runner(role)
-    return [exec_step(role, sess, call, a) for a in steps]
+    held = []
+    tr = [exec_step(role, sess, call, a, held) for a in steps]
+    tr.append(("held-at-end", repr([deep(m) for m in held])))
+    return tr
 
 
 def run_interleaved(seqs, schedule):
@@ -227,18 +306,21 @@ def run_interleaved(seqs, schedule):
     runners = [make_runner(role) for role, _ in seqs]
     pos = [0] * len(seqs)
     tr = [[] for _ in seqs]
+    held = [[] for _ in seqs]
     for si in schedule:
         role, steps = seqs[si]
         if pos[si] >= len(steps):
             continue
         sess, call = runners[si]
-        tr[si].append(exec_step(role, sess, call, steps[pos[si]]))
+        tr[si].append(exec_step(role, sess, call, steps[pos[si]], held[si]))
         pos[si] += 1
     for si, (role, steps) in enumerate(seqs):
         sess, call = runners[si]
         while pos[si] < len(steps):
-            tr[si].append(exec_step(role, sess, call, steps[pos[si]]))
+            tr[si].append(exec_step(role, sess, call, steps[pos[si]], held[si]))
             pos[si] += 1
+    for si in range(len(seqs)):
+        tr[si].append(("held-at-end", repr([deep(m) for m in held[si]])))
     return tr
 
 
@@ -248,11 +330,17 @@ def run_threads(seqs):
     sys.setswitchinterval(1e-6)
     barrier = threading.Barrier(len(seqs))
 
+    helds = [[] for _ in seqs]
+    done = threading.Barrier(len(seqs))
+
     def work(i):
         role, steps = seqs[i]
         sess, call = make_runner(role)
         barrier.wait()
-        tr[i] = [exec_step(role, sess, call, a) for a in steps]
+        out = [exec_step(role, sess, call, a, helds[i]) for a in steps]
+        done.wait(60)
+        out.append(("held-at-end", repr([deep(m) for m in helds[i]])))
+        tr[i] = out
 
     try:
         ths = [threading.Thread(target=work, args=(i,)) for i in range(len(seqs))]
@@ -275,7 +363,7 @@ def compare(seqs, iso, inter, label):
             return [("harness:thread-timeout", label)]
         if iso[si] != inter[si]:
             k = next((j for j in range(min(len(iso[si]), len(inter[si]))) if iso[si][j] != inter[si][j]), -1)
-            step = seqs[si][1][k][0] if 0 <= k < len(seqs[si][1]) else "?"
+            step = seqs[si][1][k][0] if 0 <= k < len(seqs[si][1]) else ("returned-message-mutated-later" if k == len(seqs[si][1]) else "?")
             return [(f"interleaving-changes-behaviour:{step}", f"{label}: session {si} ({seqs[si][0]}) call #{k} ({step}) alone -> {str(iso[si][k])[:160]} ; interleaved -> {str(inter[si][k])[:160]}")]
     return []
 
